@@ -56,7 +56,16 @@ func (v valueReader) Read(r io.Reader) ([]byte, error) {
 	if err != nil {
 		return nil, fmt.Errorf("read value: %s", err)
 	}
-	return append([]byte(sig), data...), err
+	// return exactly the bytes consumed: the length-prefixed
+	// signature followed by the data.
+	var buf bytes.Buffer
+	if err = basic.WriteString(sig, &buf); err != nil {
+		return nil, fmt.Errorf("write signature: %s", err)
+	}
+	if err = basic.WriteN(&buf, data, len(data)); err != nil {
+		return nil, fmt.Errorf("write value: %s", err)
+	}
+	return buf.Bytes(), nil
 }
 
 type varReader struct {
